@@ -256,6 +256,7 @@ type vhMint struct {
 	Active       string
 	Spent        []string // secrets of consumed inputs, in order
 	Locked       []string // secrets locked by a melt whose payment is in flight (state PENDING)
+	Surplus      uint64   // what swaps paid beyond outputs + input fee (an honest mint keeps it; the wallet should never pay it)
 	SpentAmounts []uint64
 	Signed       []cashu.BlindedMessage
 	Sigs         cashu.BlindedSignatures
@@ -472,6 +473,7 @@ func vhHTTP(method, url string, body []byte) (int, []byte) {
 			m.Spent = append(m.Spent, p.Secret)
 			m.SpentAmounts = append(m.SpentAmounts, p.Amount)
 		}
+		m.Surplus += in - out - m.fee(req.Inputs)
 		return vhJSON(200, nut03.PostSwapResponse{Signatures: sigs})
 	case strings.HasPrefix(path, "/v1/mint/quote/bolt11/"):
 		id := path[len("/v1/mint/quote/bolt11/"):]
